@@ -32,9 +32,24 @@ def make_stab(n, gens, with_phases=True):
     return L.Stabilizer((R, S, ph)) if with_phases else L.Stabilizer((R, S))
 
 
+class UnstableId(Exception):
+    pass
+
+
 def lib_id(n, gens):
+    """the id as a user obtains it: mostly determine_lc_class(s).id(); for one group in four the class object is first printed /
+    compared (str, ==) and asked twice -- the id of one object must not depend on what else was asked of it"""
     L = libif.lib()
-    return L.lc.determine_lc_class(make_stab(n, gens)).id()
+    obj = L.lc.determine_lc_class(make_stab(n, gens))
+    if fw.h64("c06use", n, tuple(gens)) % 4:
+        return obj.id()
+    text = str(obj)
+    first = obj.id()
+    same = (obj == obj)
+    second = obj.id()
+    if first != second or not same or str(obj) != text:
+        raise UnstableId(f"class object answers id {first}, then {second} (after str / ==); str before {text!r}, after {str(obj)!r}")
+    return first
 
 
 class Acc:
